@@ -127,8 +127,72 @@ def any(a):
     return a.any()
 
 
-def allclose(*a, **k):
-    raise ShimUnsupported("np.allclose")
+def array_equal(a, b, equal_nan=False):
+    """True iff same shape and all entries equal: decided entry by entry (forks on symbolic entries)"""
+    if not isinstance(a, ndarray):
+        a = array(a)
+    if not isinstance(b, ndarray):
+        b = array(b)
+    if tuple(a.shape) != tuple(b.shape):
+        return False
+    for x, y in zip(a._flat(), b._flat()):
+        if not _bi.bool(_core._to_bool(x == y)):
+            return False
+    return True
+
+
+def isclose(a, b, rtol=1e-05, atol=1e-08, equal_nan=False):
+    if not isinstance(a, ndarray):
+        a = array(a)
+    if not isinstance(b, ndarray):
+        b = array(b)
+    return abs(a - b) <= (atol + rtol * abs(b))
+
+
+def allclose(a, b, rtol=1e-05, atol=1e-08, equal_nan=False):
+    return _bi.bool(isclose(a, b, rtol, atol).all())
+
+
+def maximum(a, b):
+    a = a if isinstance(a, ndarray) else array(a)
+    b = b if isinstance(b, ndarray) else array(b)
+    return where(a >= b, a, b)
+
+
+def minimum(a, b):
+    a = a if isinstance(a, ndarray) else array(a)
+    b = b if isinstance(b, ndarray) else array(b)
+    return where(a <= b, a, b)
+
+
+def where(c, a, b):
+    a = a if isinstance(a, ndarray) else array(a)
+    b = b if isinstance(b, ndarray) else array(b)
+    shape = _core._bshape(_core._bshape(c.shape, a.shape), b.shape)
+    cf = _core._broadcast_to(c, shape)._flat()
+    af = _core._broadcast_to(a, shape)._flat()
+    bf = _core._broadcast_to(b, shape)._flat()
+    return ndarray._make([x if _bi.bool(_core._to_bool(k)) else y for k, x, y in zip(cf, af, bf)], shape, a.dtype, a.kind)
+
+
+def clip(a, a_min=None, a_max=None):
+    return a.clamp(a_min, a_max)
+
+
+def mean(a, axis=None):
+    return a.mean(axis)
+
+
+def outer(a, b):
+    return a.reshape(-1, 1) * b.reshape(1, -1)
+
+
+def matmul(a, b):
+    return a @ b
+
+
+def copy(a):
+    return a.copy()
 
 
 def apply_along_axis(func1d, axis, arr, *args, **kwargs):
